@@ -246,11 +246,11 @@ func c01(p *Prog, r *Report) {
 				return "", ""
 			}
 			s := p.NewSym(fn)
-			sites := sitesIn(fn, func(n string) bool { return n == callee })
+			sites := p.deepSites(s, func(n string) bool { return n == callee })
 			if len(sites) == 0 {
 				return "<no call to " + callee + ">", p.Pos(fn.Pos())
 			}
-			return arg(s.callTerm(sites[0]), idx).String(), p.InstrPos(sites[0])
+			return arg(sites[0].S.callTerm(sites[0].Site), idx).String(), p.InstrPos(sites[0].Site)
 		}
 		a, pa := get(fnA, calleeA, idxA)
 		b, _ := get(fnB, calleeB, idxB)
